@@ -450,34 +450,34 @@ func H_C14_consensus_det() {
 // (allocation size), so that the floating-point oracle works on concrete counts.
 func vfC14Conc(x int) int { return len(make([]uint8, x)) }
 
-// vfC14RefEntropy: -sum p ln p over the distinct residues of column j ('.' and '*' never
-// counted, '-' not counted when removegaps), by the same formula as documented (natural log).
-// ok is false when no residue is counted.
-func vfC14RefEntropy(orig [][]uint8, n, j int, removegaps bool) (h float64, ok bool) {
-	counted := func(c uint8) bool { return c != '*' && c != '.' && (!removegaps || c != '-') }
+func vfC14EntropyCounted(c uint8, removegaps bool) bool {
+	return c != '*' && c != '.' && (!removegaps || c != '-')
+}
+
+// vfC14EntropyTotal: number of residues of column j that are counted ('.' and '*' never,
+// '-' not when removegaps).
+func vfC14EntropyTotal(orig [][]uint8, n, j int, removegaps bool) int {
 	total := 0
 	for i := 0; i < n; i++ {
-		if counted(orig[i][j]) {
+		if vfC14EntropyCounted(orig[i][j], removegaps) {
 			total++
 		}
 	}
-	total = vfC14Conc(total)
-	if total == 0 {
-		return 0, false
-	}
+	return total
+}
+
+// vfC14RefEntropy: -sum p ln p over the distinct counted residues of column j, by the
+// documented formula (natural log). total must be > 0.
+func vfC14RefEntropy(orig [][]uint8, n, j int, removegaps bool) float64 {
+	total := vfC14Conc(vfC14EntropyTotal(orig, n, j, removegaps))
+	h := 0.0
 	for i := 0; i < n; i++ {
 		c := orig[i][j]
-		if !counted(c) {
-			continue
-		}
 		first := true
 		for i2 := 0; i2 < i; i2++ {
 			if orig[i2][j] == c {
 				first = false
 			}
-		}
-		if !first {
-			continue
 		}
 		cnt := 0
 		for i2 := 0; i2 < n; i2++ {
@@ -485,11 +485,12 @@ func vfC14RefEntropy(orig [][]uint8, n, j int, removegaps bool) (h float64, ok b
 				cnt++
 			}
 		}
-		cnt = vfC14Conc(cnt)
-		p := float64(cnt) / float64(total)
-		h -= p * math.Log(p)
+		if first && vfC14EntropyCounted(c, removegaps) {
+			p := float64(vfC14Conc(cnt)) / float64(total)
+			h -= p * math.Log(p)
+		}
 	}
-	return h, true
+	return h
 }
 
 // H_C14_entropy_index: Entropy with a site index outside [0,L) is an error, never a panic.
@@ -511,27 +512,23 @@ func H_C14_entropy_index() {
 	}
 }
 
-func vfC14Entropy(nmax, lmax int) {
-	n := nondetRange(1, nmax)
+func vfC14Entropy(nmin, nmax, lmax int) {
+	n := nondetRange(nmin, nmax)
 	L := nondetRange(1, lmax)
 	al, orig := vfSymAlign(NUCLEOTIDS, n, L, vfC14NoLower)
 	site := nondetRange(0, L-1)
 	rg := nondetRange(0, 1) == 1
-	anyCounted := false
-	for i := 0; i < n; i++ {
-		c := orig[i][site]
-		if c != '*' && c != '.' && (!rg || c != '-') {
-			anyCounted = true
-		}
-	}
-	assume(anyCounted) // a column without any counted residue has no entropy (0/0): nothing asserted
+	total := vfC14EntropyTotal(orig, n, site, rg)
+	// total = 0: no entropy (0/0), nothing asserted. total = 3: the proportions are thirds,
+	// not representable; the engine rounds concrete quotients but not symbolic ones.
+	assume(total == 1 || total == 2 || total == 4)
 	h1, err1 := al.Entropy(site, rg)
 	h2, err2 := al.Entropy(site, rg)
 	verifMapOrder(false)
 	verifReach("entropy")
 	verifAssert(err1 == nil && err2 == nil, "Entropy: valid site accepted")
 	verifAssert(h1 == h2, "Entropy: same answer twice")
-	want, _ := vfC14RefEntropy(orig, n, site, rg)
+	want := vfC14RefEntropy(orig, n, site, rg)
 	verifAssert(h1 == want, "Entropy: equals -sum p ln p over the counted residues")
 	same := true
 	for i := 1; i < n; i++ {
@@ -546,16 +543,16 @@ func vfC14Entropy(nmax, lmax int) {
 }
 
 // H_C14_entropy: Entropy(site, removegaps) = -sum p ln p over the residues of the column (ln uninterpreted), same answer twice under independent map iteration orders.
-// bounds: n<=3 rows, L<=2 columns, residues printable ASCII without lower-case letters, all sites in [0,L), removegaps any; columns with at least one counted residue
-// outside: IEEE rounding (real arithmetic, order of summation irrelevant), lower-case residues (case folding of entropy not documented), columns made only of - . * (0/0)
-// verif: maporder=1 merge=0
-func H_C14_entropy() { vfC14Entropy(3, 2) }
+// bounds: n<=3 rows, L<=2 columns, residues printable ASCII without lower-case letters, all sites in [0,L), removegaps any; columns with 1 or 2 counted residues
+// outside: columns with 3 counted residues (thirds: IEEE rounding; engine limitation, see report), IEEE rounding in general (real arithmetic, order of summation irrelevant), lower-case residues (case folding of entropy not documented), columns made only of - . * (0/0)
+//verif: maporder=1
+func H_C14_entropy() { vfC14Entropy(1, 3, 2) }
 
-// H_C14_entropy_deep: as H_C14_entropy with 4 rows.
-// bounds: n<=4 rows, L<=2
-// outside: n>4
-// verif: maporder=1 merge=0 tier=thorough
-func H_C14_entropy_deep() { vfC14Entropy(4, 2) }
+// H_C14_entropy_deep: as H_C14_entropy with 4 rows (quarters and halves).
+// bounds: n=4 rows, L<=2; columns with 1, 2 or 4 counted residues
+// outside: n>4, columns with 3 counted residues
+//verif: maporder=1 tier=thorough
+func H_C14_entropy_deep() { vfC14Entropy(4, 4, 2) }
 
 // ---------------------------------------------------------------------------------------
 // variable sites, informative sites, alleles
@@ -701,13 +698,18 @@ func vfC14Pssm(nmax, lmax int) {
 		assume(norm < 0 || norm > 4)
 	}
 	lg := nondetRange(0, 1) == 1
+	// pseudo-count: any k/4 (k in 0..8) for plain counts; otherwise (T-n)/4 for a power of
+	// two T >= n, so that the site total n+4*pc = T and every quotient is exact
 	var pc float64
 	if norm == PSSM_NORM_NONE && !lg {
-		pc = nondetDyadic(4, 0, 8) // plain counts: any pseudo-count k/4, k in 0..8 (linear)
-	} else if lg {
-		pc = float64(nondetRange(1, 2)) * 0.75 // log2(0) is outside the claim
+		pc = nondetDyadic(4, 0, 8)
 	} else {
-		pc = float64(nondetRange(0, 2)) * 0.75
+		T := 1 << uint(nondetRange(0, 3))
+		assume(T >= n)
+		if lg {
+			assume(T > n) // log2(0) is outside the claim
+		}
+		pc = float64(T-n) / 4
 	}
 	m1, err1 := al.Pssm(lg, pc, norm)
 	m2, err2 := al.Pssm(lg, pc, norm)
@@ -749,8 +751,8 @@ func vfC14Pssm(nmax, lmax int) {
 }
 
 // H_C14_pssm: Pssm columns are the case-folded counts plus pseudo-count, normalised (none / site frequency / uniform), optionally log2 (ln uninterpreted); unknown normalisation is an error.
-// bounds: nucleotide alignment n<=2 rows, L<=2 columns, residues printable ASCII (mixed case); normalisation NONE/FREQ/UNIF or any int outside 0..4; pseudo-count any k/4 (k in 0..8) for plain counts, 0, 0.75, 1.5 otherwise (0.75, 1.5 with log)
-// outside: IEEE rounding (real arithmetic); DATA and LOGO normalisations; amino-acid alignments; log of a zero count; other pseudo-counts; map iteration orders (every value is computed independently of the others)
+// bounds: nucleotide alignment n<=2 rows, L<=2 columns, residues printable ASCII (mixed case); normalisation NONE/FREQ/UNIF or any int outside 0..4; pseudo-count any k/4 (k in 0..8) for plain counts, otherwise (T-n)/4 for T in {1,2,4,8}, T>=n (T>n with log): site totals that are powers of two
+// outside: IEEE rounding (real arithmetic); DATA and LOGO normalisations; amino-acid alignments; log of a zero count; pseudo-counts giving inexact quotients; map iteration orders (every value is computed independently of the others)
 // verif: merge=0
 func H_C14_pssm() { vfC14Pssm(2, 2) }
 
